@@ -213,31 +213,30 @@ Section Rows.
     accepted sem s m r v t -> rereadable s r ->
     let cells := cells_of_rec (mcols v) in
     cells_of_rec (mcols r) = cells /\ record_names r = map fst cells /\
-    rlist (mcols v) = rlist (canon_rec cells) /\
+    map (@slot_view C W) (rlist (mcols v)) = map (@slot_view C W) (rlist (canon_rec cells)) /\
     row_good sem s (row_of s cells) /\ row_renders (row_of s cells) /\ t = row_line (row_of s cells).
   Proof.
     intros Ht ND (lg & EV & EM & ET) Hex.
-    destruct (accepted_facts sem s r v m LgWriter lg Ht ND EV EM) as (cols & Hr & Hk & Hval & Hv & _).
+    destruct (accepted_facts sem s r v m LgWriter lg Ht ND EV EM) as (cols & Hr & Hk & Hval & Hv & Hview & _).
+    assert (Hv' : rlist (mcols v) = map Some (map (fun c => with_perrs c []) cols)) by (now rewrite Hv, map_map).
     assert (Ecells : cells_of_rec (mcols v) = map (@cell_of C W) cols).
-    { unfold cells_of_rec. now rewrite Hv, somes_map_Some, cell_of_canon. }
+    { unfold cells_of_rec. rewrite Hv', somes_map_Some, map_map. reflexivity. }
     assert (Ercells : cells_of_rec (mcols r) = map (@cell_of C W) cols).
     { unfold cells_of_rec. now rewrite Hr, somes_map_Some. }
     cbv zeta. rewrite Ecells. split; [exact Ercells|]. split.
     { unfold record_names. rewrite Hr, !map_map. reflexivity. }
-    split; [exact Hv|].
-    unfold record_text in ET. rewrite Hv in ET.
-    destruct (slots_text sem (map Some (canon_cols 0 (map (@cell_of C W) cols)))) as [ts|e] eqn:ES; [|discriminate].
+    split; [exact Hview|].
+    unfold record_text in ET. rewrite Hv' in ET.
+    destruct (slots_text sem (map Some (map (fun c => with_perrs c []) cols))) as [ts|e] eqn:ES; [|discriminate].
     cbn [bind] in ET. injection ET as <-.
     apply slots_text_some in ES as [Hsome ->].
     assert (Htx : Forall (fun np => col_text sem (snd np) <> None) (map (@cell_of C W) cols)).
-    { rewrite <- (cell_of_canon 0 (map (@cell_of C W) cols)) at 1.
-      apply Forall_forall. intros np Hin. apply in_map_iff in Hin as (c & <- & Hc).
-      rewrite Forall_forall in Hsome. exact (Hsome c Hc). }
+    { apply Forall_forall. intros np Hin. apply in_map_iff in Hin as (c & <- & Hc).
+      rewrite Forall_forall in Hsome. apply (Hsome (with_perrs c [])). apply in_map_iff. eauto. }
     unfold rereadable in Hex. rewrite Ercells in Hex.
     destruct (row_of_good s (map (@cell_of C W) cols) Ht) as [Hg Hrn]; try assumption.
     { rewrite map_map. exact Hk. }
     split; [exact Hg|]. split; [exact Hrn|].
-    unfold row_line. rewrite row_of_texts. f_equal.
-    rewrite <- (cell_of_canon 0 (map (@cell_of C W) cols)) at 2. rewrite map_map. reflexivity.
+    unfold row_line. rewrite row_of_texts. f_equal. rewrite !map_map. reflexivity.
   Qed.
 End Rows.
